@@ -39,6 +39,15 @@ func guardsOf(p *core.Program, n ast.Node, boundary ast.Node) []guard {
 					return
 				}
 			}
+			// a comparison known to be false is the opposite comparison known
+			// to be true: `if len(w) != 1 { return }` guards what follows by
+			// `len(w) == 1`, like an enclosing `if len(w) == 1 { … }` does
+			if be, ok := e.(*ast.BinaryExpr); ok && !pos {
+				if op, ok := negatedCmp[be.Op]; ok {
+					out = append(out, guard{&ast.BinaryExpr{X: be.X, OpPos: be.OpPos, Op: op, Y: be.Y}, true})
+					return
+				}
+			}
 			out = append(out, guard{e, pos})
 		}
 		rec(e, pos)
@@ -70,9 +79,21 @@ func guardsOf(p *core.Program, n ast.Node, boundary ast.Node) []guard {
 					add(ifs.Cond, false)
 				}
 			}
-			// tagless switch: the clause's own condition holds
-			if sw, ok := p.Parent(p.Parent(x)).(*ast.SwitchStmt); ok && sw.Tag == nil && len(x.List) == 1 {
-				add(x.List[0], true)
+			// tagless switch: the clause's own condition holds, and the
+			// conditions of the clauses before it do not
+			if sw, ok := p.Parent(p.Parent(x)).(*ast.SwitchStmt); ok && sw.Tag == nil {
+				if len(x.List) == 1 {
+					add(x.List[0], true)
+				}
+				for _, cl := range sw.Body.List {
+					o := cl.(*ast.CaseClause)
+					if o == x {
+						break
+					}
+					for _, e := range o.List {
+						add(e, false)
+					}
+				}
 			}
 		case *ast.FuncLit, *ast.FuncDecl:
 			return out
@@ -432,4 +453,10 @@ func lstatIsDir(g *core.Func, gs []guard) bool {
 		})
 	}
 	return found
+}
+
+var negatedCmp = map[token.Token]token.Token{
+	token.EQL: token.NEQ, token.NEQ: token.EQL,
+	token.LSS: token.GEQ, token.GEQ: token.LSS,
+	token.GTR: token.LEQ, token.LEQ: token.GTR,
 }
